@@ -1,11 +1,104 @@
-(* C04 - captured variables are frozen by value at the call, respecting scope.  Statements only. *)
+(* C04 - captured variables are frozen by value at the call, respecting scope.
+   Statements only; proofs in Proofs/CaptureProofs.v and Proofs/CaptureSem.v.
+   [rw ce st e] is the model of _rewrite_captured_vars (ignore stack [st], snapshot [ce]) with fixes
+   F08, F19, FC1, FC3 applied; [check_ast] the gate over the generated list [legal_const_kinds]. *)
 From FA.Base Require Import PyAst Value Eval Traverse.
 From FA.Gen Require Import TablesUtil.
 From FA.Model Require Import Capture.
 From FA.Proofs Require Import Refine CaptureProofs CaptureSem.
 
+(* --- capture_freezes (partial: first-order fragment [fragc], snapshot of plain literals) ---
+   Full statement aimed at:  eval later (rewrite_captured ce e) = eval (vals ce ++ later) e  for every expression.
+   Proved: the refinement direction, for every backend, on the fragment [fragc] (names, constants, attributes,
+   unary/binary operators, conditionals, subscripts, tuples, lists, method calls with and without a one-parameter
+   lambda, single-for comprehensions; nested to any depth, with any shadowing) and snapshots whose entries are
+   int/bool/str/None literals without attribute table ([lit_env]).  Missing: called lambdas / helpers (C05's
+   clause), class-constant folding, keyword arguments, comparisons and boolean operators, the converse direction. *)
+Theorem capture_freezes_partial :
+  forall (B : backend) (ops : list string) ce e e' later v,
+    lit_env ce -> fragc e -> rewrite_captured ce e = Ok e' ->
+    eval B ops (vals ce ++ later) e = Some v -> eval B ops later e' = Some v.
+Proof. exact capture_freezes_frag. Qed.
+Print Assumptions capture_freezes_partial.
+
+(* --- capture_respects_scope: over all expression trees, by induction with the ignore stack as invariant ---
+   Whatever the snapshot holds under a name that is on the ignore stack (a parameter of the passed lambda or of a
+   nested lambda, a comprehension target) is irrelevant to the result, result and error alike. *)
+Theorem capture_respects_scope :
+  forall e st ce1 ce2, agree_off st ce1 ce2 -> rw ce1 st e = rw ce2 st e.
+Proof. exact rw_scope. Qed.
+Print Assumptions capture_respects_scope.
+
+(* pushing names on the ignore stack is exactly deleting them from the snapshot *)
+Theorem capture_stack_is_erasure : forall ce X st e, rw ce (X :: st) e = rw (erase X ce) (X :: st) e.
+Proof. exact rw_stack_is_erasure. Qed.
+Print Assumptions capture_stack_is_erasure.
+
+(* the parameters of the passed lambda are never replaced, and a bound occurrence is returned as it is *)
+Theorem capture_params_never_replaced :
+  forall ce ps b, rewrite_captured ce (Lambda ps b) = rewrite_captured (erase ps ce) (Lambda ps b).
+Proof. exact lambda_params_never_replaced. Qed.
+Print Assumptions capture_params_never_replaced.
+
+Theorem capture_bound_name_kept : forall ce st x, is_arg st x = true -> rw ce st (Name x) = Ok (Name x, Name x).
+Proof. exact rw_bound_name. Qed.
+Print Assumptions capture_bound_name_kept.
+
+(* --- capture_gate --- *)
 Theorem capture_gate : forall e,
   (check_ast e = Ok tt <-> Forall (fun c => legal_const c = true) (consts_in e)) /\
   (check_ast e = Ok tt \/ check_ast e = Err EValueError).
 Proof. intros e; split; [exact (check_ast_ok_iff e) | exact (check_ast_total e)]. Qed.
 Print Assumptions capture_gate.
+
+(* the operator never records a tree carrying a constant of an illegal kind *)
+Theorem capture_gate_pipeline : forall ce src e',
+  capture_pipeline ce src = Ok e' -> Forall (fun c => legal_const c = true) (consts_in e').
+Proof. exact pipeline_gate. Qed.
+Print Assumptions capture_gate_pipeline.
+
+(* ---------- non-vacuity and pins ---------- *)
+Definition B0 : backend := {| attr_sem := fun _ _ => None; meth_sem := fun _ _ _ _ => None; fun_sem := fun _ _ _ => None |}.
+Definition ce0 : cenv := {| ce_nonlocals := [("x", CVal (CInt 2))]; ce_globals := [("x", CVal (CInt 1)); ("g", CVal (CInt 10))]; ce_attrs := [] |}.
+Definition jets : value := VList [VDict [VStr "pt"] [VInt 5]; VDict [VStr "pt"] [VInt 7]].
+
+(* lambda e: e.jets.Select(lambda j: j.pt + x + g) with closure x = 2 hiding the global x = 1 (FC1), later rebound *)
+Example freezes_runs :
+  let body := Call (Attr (Attr (Name "e") "jets") "Select")
+                   [Lambda ["j"] (BinOp BAdd (BinOp BAdd (Attr (Name "j") "pt") (Name "x")) (Name "g"))] [] [] in
+  fragc body /\ lit_env ce0 /\
+  exists body', rewrite_captured ce0 body = Ok body' /\
+    eval B0 ["Select"] (vals ce0 ++ [("x", VInt 99); ("e", VDict [VStr "jets"] [jets])]) body = Some (VList [VInt 17; VInt 19]) /\
+    eval B0 ["Select"] [("x", VInt 99); ("e", VDict [VStr "jets"] [jets])] body' = Some (VList [VInt 17; VInt 19]).
+Proof.
+  split; [repeat constructor|]. split; [repeat constructor; simpl; discriminate|].
+  eexists; split; [vm_compute; reflexivity | split; vm_compute; reflexivity].
+Qed.
+
+(* shadowing: nested lambda parameter, comprehension target (F08) and the passed lambda's own parameter *)
+Example scope_runs :
+  rewrite_captured ce0
+    (Lambda ["e"] (Tuple [Call (Attr (Attr (Name "e") "jets") "Select") [Lambda ["x"] (Attr (Name "x") "pt")] [] [];
+                          ListComp (Attr (Name "x") "pt") [CompFor (Name "x") (Attr (Name "e") "jets") [] false];
+                          Name "x"]))
+  = Ok (Lambda ["e"] (Tuple [Call (Attr (Attr (Name "e") "jets") "Select") [Lambda ["x"] (Attr (Name "x") "pt")] [] [];
+                             ListComp (Attr (Name "x") "pt") [CompFor (Name "x") (Attr (Name "e") "jets") [] false];
+                             Const (CInt 2)])).
+Proof. vm_compute. reflexivity. Qed.
+
+(* F19: attribute names of Python's own ast nodes on a capture-free lambda are left alone *)
+Example astnames_untouched :
+  rewrite_captured ce0 (Lambda ["e"] (Attr (Attr (Name "e") "x") "id")) = Ok (Lambda ["e"] (Attr (Attr (Name "e") "x") "id")).
+Proof. vm_compute. reflexivity. Qed.
+
+(* the gate: a captured list is refused with ValueError; bool passes because bool is an int *)
+Example gate_refuses_list :
+  capture_pipeline {| ce_nonlocals := [("l", CVal (CObj "other:list" "list#0"))]; ce_globals := []; ce_attrs := [] |}
+                   (Lambda ["e"] (Name "l")) = Err EValueError.
+Proof. vm_compute. reflexivity. Qed.
+
+Example gate_kinds :
+  map legal_const [CInt 1; CBool true; CStr "s"; CBytes "b"; CFloat "1.5"; CComplex "1j"; CObj "module" "math#0";
+                   CNone; CEllipsis; CObj "type" "K#1"; CObj "other:tuple" "t#2"]
+  = [true; true; true; true; true; true; true; false; false; false; false].
+Proof. vm_compute. reflexivity. Qed.
